@@ -1171,3 +1171,30 @@ def r_same_storage_needs_same_offsets(ck, P, rid='C09-R13'):
                     ck.violation(R, f.name, 'same-buffer test at %s without equal offsets' % x.loc(), '%s acts on "both images are the same buffer" (%s) at %s without having compared the %s offsets of the two images: read at different positions, the mask pixel is not the source pixel, and the pixbuf fast paths, which take colour and alpha from the source pixel, composite with the wrong alpha' % (f.name, x.loc(), b.term.loc(), ' and '.join(sorted({'x', 'y'} - axes))), x.loc())
     if n == 0:
         raise AnalysisBroken('%s: no comparison of two images\' bits pointers found (pixbuf detection)' % rid)
+
+
+def r_box32_coordinates_not_narrowed(ck, P, rid='C19-R16'):
+    """T-WID across a call: rectangles given as pixman_box32_t are 32-bit; the 16-bit entry points of the library (pixman_image_composite,
+    the region16 API) are for callers that have 16-bit data.  Inside the library a coordinate loaded from a 32-bit box is never
+    truncated to 16 bits, except by the one function whose purpose is the conversion (it stores into pixman_box16_t)."""
+    R = ck.rule(rid, 'no value computed from the fields of a pixman_box32_t is truncated to 16 bits (as an argument of a 16-bit entry point or otherwise), except in the function that converts a 32-bit region into a 16-bit one: pixman_image_fill_boxes hands its boxes to the compositor at full width - through pixman_image_composite a box {0, 0, 65536, 65536} would draw nothing and {5, -20000, 50, 50000} would end above the image, while the direct-fill shortcut honours them', floor=1)
+    n = 0; users32 = 0
+    for f in P.functions():
+        conv = any(x.op == 'store' and (f.last_field(f.path(x.a[1])) or '').startswith('pixman_box16.') for x in f.insts())
+        for x in f.insts():
+            if x.op == 'load' and (f.last_field(f.path(x.a[0])) or '').startswith('pixman_box32.'):
+                users32 += 1
+            if x.op != 'trunc' or x.ty not in ('i16', 'i8'):
+                continue
+            if not any(a[0] == 'field' and a[1].startswith('pixman_box32.') for a in f.atoms(x.a[0])):
+                continue
+            n += 1; ck.saw(f)
+            where = '%s: truncation at %s' % (f.name, x.loc())
+            if conv:
+                ck.ok(R, where, 'the 32-to-16-bit region conversion')
+            else:
+                ck.violation(R, f.name, 'box32 coordinate truncated to %s' % x.ty, '%s truncates a value computed from a pixman_box32_t field to %s (%s): coordinates and extents beyond the 16-bit range are taken modulo 65536, the box is drawn elsewhere or not at all, and the result no longer equals compositing the solid colour over the box' % (f.name, x.ty, x.loc()), x.loc())
+    if users32 < 50:
+        raise AnalysisBroken('%s: only %d loads of pixman_box32_t fields seen' % (rid, users32))
+    if n == 0:
+        raise AnalysisBroken('%s: the 32-to-16-bit conversion (positive example) was not seen' % rid)
